@@ -435,7 +435,8 @@ public:
                                       StringRef name,
                                       SmallVectorImpl<char>& storage) {
     LookupContext context{*this, decl, startTok,
-                          /*shellEscapeInAndOut*/ name == "command"};
+                          /*shellEscapeInAndOut*/ name != "depfile" &&
+                                                    name != "rspfile"};
     llvm::raw_svector_ostream os(storage);
     lookupBuildParameter(&context, name, os);
     return os.str();
